@@ -12,6 +12,32 @@ BASELINE = (
 
 # id -> (category, technique, level text, level note, design ref)
 CHECKS = {
+    "C06": (
+        "exploration",
+        "Hypothesis-generated basis-set pairs against an independent Obara-Saika overlap oracle "
+        "(float64 + 40-digit mpmath) and metamorphic relations; randomized polynomial-identity "
+        "testing of the 64 1-D kernels; entry-by-entry enumeration of the 8 Cartesian-to-pure tables",
+        "compute_overlap is compared, element by element, with an oracle that shares no code or "
+        "algorithm with it (recurrence instead of binomial expansion, harmonics re-derived from "
+        "the documented recursion), in the documented screening mode, plus symmetry / PSD / swap / "
+        "translation / convention-change relations and the rejection clauses. The finite parts "
+        "(kernels as polynomial identities at 50 digits, tables) are complete in every run.",
+        "oracle O self-tested against Gauss-Hermite quadrature and oracle E; tolerance "
+        "1e-11*sqrt(S_mm S_nn)+1e-15; near-threshold cases skipped and counted",
+        "DESIGN.md section 5, C06",
+    ),
+    "C14": (
+        "exploration",
+        "Hypothesis-generated bases and orbital sets; function-by-function comparison with the "
+        "Gaussian evaluator oracle, overlap oracle, documented alpha/beta occupation rules",
+        "convert_to_segmented / convert_to_unrestricted / prepare_* are run on generated bases "
+        "(segmented, SP, generalized, any conventions) and orbital sets (closed, open-shell, "
+        "fractional, occs_aminusb, missing arrays); every basis function of the result is "
+        "evaluated on probe points and compared with the original, densities and spin densities "
+        "are compared, idempotence / identity / rejection clauses are checked.",
+        "oracles E and O; alpha/beta split rules as documented on MolecularOrbitals",
+        "DESIGN.md section 5, C14",
+    ),
     "C10": (
         "exploration",
         "exhaustive enumeration of all convention-table pairs and single-label corruptions + "
